@@ -2,14 +2,12 @@
 package lexer
 
 import (
-	"bytes"
 	"errors"
 	"fmt"
 	"io"
 
 	"github.com/moorara/algo/grammar"
 	"github.com/moorara/algo/lexer"
-	"github.com/moorara/algo/lexer/input"
 )
 
 const (
@@ -63,26 +61,14 @@ type Lexer struct {
 // New creates a new lexical analyzer for the EBNF language.
 // EBNF (Extended Backus-Naur Form) is used to define context-free grammars and their corresponding languages.
 func New(filename string, src io.Reader) (*Lexer, error) {
-	// A specification is small: it is read as a whole and always ends with a line terminator.
-	//
-	//   - The input buffer reports the end of input together with the last character,
-	//     so a token must be followed by some character to be recognized.
-	//   - The input buffer loads the other half again when the scanner steps back over the boundary of its two halves,
-	//     so the buffer is made large enough to hold the whole input in its first half.
+	// A specification is small: it is read as a whole.
 	data, err := io.ReadAll(src)
 	if err != nil {
 		return nil, err
 	}
 
-	data = append(data, '\n')
-
-	in, err := input.New(filename, bytes.NewReader(data), max(bufferSize, len(data)+1))
-	if err != nil {
-		return nil, err
-	}
-
 	return &Lexer{
-		in: in,
+		in: newSource(filename, data),
 	}, nil
 }
 
